@@ -462,3 +462,242 @@ def monitor_table(cfg, rows, sid, inp, by_weight):
     if inp["pm"] == 0:
         bad.append(("prism-limit", "ExpandSearch with limit 10 is not a prefix of the unlimited search"))
     return bad
+
+
+# ------------------------------------------------------------------------------------------------ running
+class Runner:
+    def __init__(self, c):
+        self.c = c
+        self.exe, self.bdir = vlib.build_harness("c07_harness", "san", ["c07_harness.cc"])
+        rc, out = vlib.lake_build(["driver_c07"])
+        if rc != 0:
+            raise vlib.BuildError("driver_c07 does not build: " + out[-3000:])
+        self.n = 0
+        self.harness_s = 0.0
+        self.model_s = 0.0
+
+    def impl(self, cfgs, inputs_by_cfg):
+        self.n += 1
+        d = os.path.join(self.c.work, "ws%d" % self.n)
+        make_workspace(d, cfgs)
+        job = os.path.join(self.c.work, "job%d.txt" % self.n)
+        with open(job, "w") as f:
+            f.write(job_text(cfgs, inputs_by_cfg))
+        t0 = time.time()
+        for attempt in range(4):
+            rc, out = vlib.sh([self.exe, d, job], env=vlib.SAN_ENV, timeout=3600)
+            if rc == 127 or "error while loading shared libraries" in out:
+                vlib.build_librime("san")
+                time.sleep(1 + attempt)
+                continue
+            break
+        self.harness_s += time.time() - t0
+        shutil.rmtree(d, ignore_errors=True)
+        os.unlink(job)
+        return rc, out, parse_impl(out)
+
+    def model(self, sch, cfg):
+        t0 = time.time()
+        out = vlib.run_driver("driver_c07", model_input(sch, cfg))
+        self.model_s += time.time() - t0
+        return parse_model(out)
+
+
+def ref_of(cfg):
+    syl, rows, need, nent = C06.ref_rows(cfg["case"])
+    sid = {s: i for i, s in enumerate(syl)}
+    wrows = [(t, cd, C06.okey(C06.stored_bits(C06.eff_weight(w)))) for t, cd, w in rows]
+    return syl, sid, wrows
+
+
+def evaluate(run, cfgs, inputs_by_cfg, stats=None, want_model=True):
+    """-> (failures [(cfg, kind, input hex, clause, detail)], disagreements [...], crash log or None)"""
+    rc, out, schemas = run.impl(cfgs, inputs_by_cfg)
+    byname = {cfg["name"]: cfg for cfg in cfgs}
+    fails, diffs = [], []
+    crash = None
+    if rc != 0:
+        crash = out[-3000:]
+    for sch in schemas:
+        cfg = byname.get(sch["id"][:-1])
+        if cfg is None:
+            continue
+        syl, sid, wrows = ref_of(cfg)
+        if not sch["loaded"] or not sch["selected"]:
+            if syl:
+                fails.append((cfg, sch["kind"], None, "deploy", "schema %s: dictionary loaded=%s, schema selected=%s" %
+                              (sch["id"], sch["loaded"], sch["selected"])))
+            continue
+        mo = run.model(sch, cfg) if want_model else {}
+        by_weight = cfg["case"]["files"][0].get("sort") != "original"
+        for inp in sch["inputs"]:
+            if not inp["done"]:
+                continue
+            o = monitor_script(cfg, wrows, sid, inp) if sch["kind"] == "script" else monitor_table(cfg, wrows, sid, inp, by_weight)
+            k = correspond_input(sch["kind"], inp, mo.get(inp["in"])) if want_model else []
+            if stats is not None:
+                stats["inputs"] += 1
+                stats["candidates"] += len(inp["c"])
+                stats["lookup_entries"] += sum(len(v) for v in inp["lk"].values())
+                stats["with_sentence"] += 1 if inp["c"] and inp["c"][0][0] == "sentence" else 0
+                stats["with_completion"] += 1 if any(x[0] == "completion" for x in inp["c"]) else 0
+                stats["long_code_hits"] += sum(1 for v in inp["lk"].values() for x in v if x[2].count(",") >= 3)
+                stats["graph_edges"] += len(inp["gi"])
+                stats["ambiguous"] += 1 if any(l.split(" ")[5] != "0000000000000000" for l in inp["gi"]) else 0
+                if len(inp["c"]) >= 2:
+                    stats["nontrivial"].add((sch["kind"], len(inp["c"]), len(inp["gi"]), inp["g"][:2] if inp["g"] else None,
+                                             tuple(sorted(set(x[0] for x in inp["c"])))))
+            for cl, det in o:
+                fails.append((cfg, sch["kind"], inp["in"], cl, det))
+            for cl, det in k:
+                diffs.append((cfg, sch["kind"], inp["in"], cl, det))
+    return fails, diffs, crash
+
+
+def shrink(run, cfg, kind, inhex, clause, budget):
+    """fewer dictionary rows, same input, same clause"""
+    evals = [0]
+    s = bytes.fromhex(inhex).decode("latin-1")
+
+    def fails(lines):
+        evals[0] += 1
+        c2 = dict(cfg, name="m%d" % evals[0])
+        f = dict(cfg["case"]["files"][0], fname=c2["name"] + "d", body=b"\n".join(lines) + b"\n")
+        c2["case"] = {"name": c2["name"] + "d", "files": [f]}
+        fl, _, crash = evaluate(run, [c2], {c2["name"]: [s]}, want_model=False)
+        return any(k == kind and cl == clause for _, k, _, cl, _ in fl)
+
+    lines = [l for l in cfg["case"]["files"][0]["body"].split(b"\n") if l.strip()]
+    n = 2
+    while len(lines) >= 2 and evals[0] < budget:
+        chunk = max(1, len(lines) // n)
+        reduced = False
+        for i in range(0, len(lines), chunk):
+            cand = lines[:i] + lines[i + chunk:]
+            if cand and fails(cand):
+                lines, n, reduced = cand, max(n - 1, 2), True
+                break
+            if evals[0] >= budget:
+                break
+        if not reduced:
+            if chunk == 1:
+                break
+            n = min(len(lines), n * 2)
+    c2 = dict(cfg, name="min")
+    f = dict(cfg["case"]["files"][0], fname="mind", body=b"\n".join(lines) + b"\n")
+    c2["case"] = {"name": "mind", "files": [f]}
+    return c2, evals[0]
+
+
+def corpus_items():
+    out = []
+    for p in sorted(glob.glob(os.path.join(vlib.CORPUS, "C07", "*.json"))):
+        j = json.load(open(p))
+        cfg = config_from_json(j["config"])
+        base = re.sub(r"[^a-z0-9]", "", os.path.splitext(os.path.basename(p))[0].lower())[:12]
+        cfg["name"] = "c" + base
+        cfg["case"]["name"] = cfg["name"] + "d"
+        cfg["case"]["files"][0]["fname"] = cfg["name"] + "d"
+        out.append((cfg, j["inputs"]))
+    return out
+
+
+def run(c):
+    quick = c.tier == "quick"
+    audit = vlib.lean_audit("C07")
+    if not quick and audit["ok"]:
+        ok, log = vlib.leanchecker("RimeModel.Props.C07")
+        if not ok:
+            audit["ok"] = False
+            audit["failures"].append(("RimeModel.Props.C07", "leanchecker: " + log))
+    run_ = Runner(c)
+    n_cfg, max_len, n_rand = (14, 4, 40) if quick else (90, 5, 120)
+    stats = {"configurations": 0, "inputs": 0, "candidates": 0, "lookup_entries": 0, "with_sentence": 0, "with_completion": 0,
+             "long_code_hits": 0, "graph_edges": 0, "ambiguous": 0, "nontrivial": set(), "algebra": {}, "completion_on": 0,
+             "sort_original": 0, "shrink_evals": 0, "crashes": 0, "exhaustive_length": max_len}
+    items = corpus_items()
+    for i in range(n_cfg):
+        cfg = gen_config(c.rng, "k%d" % i, quick)
+        items.append((cfg, inputs_for(c.rng, cfg, max_len, n_rand)))
+    all_fails, all_diffs = [], []
+    for k in range(0, len(items), 6):
+        batch = items[k:k + 6]
+        cfgs = [b[0] for b in batch]
+        fails, diffs, crash = evaluate(run_, cfgs, {b[0]["name"]: b[1] for b in batch}, stats)
+        for cfg in cfgs:
+            stats["configurations"] += 1
+            a = json.dumps(cfg["algebra"])
+            stats["algebra"][a] = stats["algebra"].get(a, 0) + 1
+            stats["completion_on"] += 1 if cfg["completion"] else 0
+            stats["sort_original"] += 1 if cfg["case"]["files"][0].get("sort") == "original" else 0
+        if crash:
+            stats["crashes"] += 1
+            all_fails.append((cfgs[0], "harness", None, "crash", crash[-800:]))
+        all_fails += fails
+        all_diffs += diffs
+    seen = set()
+    for cfg, kind, inhex, clause, det in all_fails:
+        sig = "C07:%s:%s" % (kind, clause)
+        if sig in seen:
+            continue
+        seen.add(sig)
+        known = vlib.known_status("C07", sig)
+        small = cfg
+        if inhex is not None and not (known and known.get("status") == "open") and not cfg["name"].startswith("c"):
+            small, ev = shrink(run_, cfg, kind, inhex, clause, 50 if quick else 150)
+            stats["shrink_evals"] += ev
+        c.report(sig, "%s schema, input %r: %s" % (kind, bytes.fromhex(inhex).decode("latin-1") if inhex else None, det[:400]),
+                 {"kind": "impl-violation", "clause": clause, "schema_kind": kind, "config": config_to_json(small),
+                  "inputs": [bytes.fromhex(inhex).decode("latin-1")] if inhex else [], "detail": det,
+                  "source_hash": vlib.source_hash(SRC_FILES), "gen_version": GEN_VERSION})
+    if not all_fails:
+        for cfg, kind, inhex, clause, det in all_diffs:
+            sig = "C07:correspondence:%s" % clause
+            if sig in seen:
+                continue
+            seen.add(sig)
+            c.report(sig, "model and implementation disagree (%s schema, input %r): %s" %
+                     (kind, bytes.fromhex(inhex).decode("latin-1"), det[:400]),
+                     {"kind": "correspondence", "broken": "correspondence driver_c07 vs c07_harness", "schema_kind": kind,
+                      "config": config_to_json(cfg), "inputs": [bytes.fromhex(inhex).decode("latin-1")], "detail": det}, no_input=True)
+    if not audit["ok"] and not all_fails:
+        c.report("C07:proof", "proof obligation no longer checks: %s" % "; ".join("%s: %s" % f for f in audit["failures"])[:600],
+                 {"kind": "proof", "broken_theorems": audit["failures"], "lean_log": audit["log"][-3000:]}, no_input=True)
+    cov = vlib.proof_cov(audit, "lake build RimeModel.Props.C07 && #print axioms (all theorems) && forbidden-token scan"
+                         + ("" if quick else " && leanchecker RimeModel.Props.C07"),
+                         vlib.STD_TRUSTED + ["the real Syllabifier and Prism as recorded inputs (C08, C09)", "the compiled table (C06)",
+                                             "Poet (sentence) as an oracle"])
+    nontrivial = stats.pop("nontrivial")
+    cov.update({
+        "evaluations": stats["inputs"], "distinct_nontrivial": len(nontrivial),
+        "rule": "one evaluation = one input string on one deployed schema (script-style or table-style) of one generated dictionary: "
+                "syllable graph, Dictionary::Lookup, candidate list recorded from the real code, compared with the Lean model and with a "
+                "brute-force reference over the source rows; all inputs over alphabet+delimiters up to length %d plus %d random longer "
+                "ones per configuration; corpus first. non-trivial = at least two candidates; distinct by (schema kind, number of "
+                "candidates, graph edges, interpreted/input length, candidate types)" % (max_len, n_rand),
+        "samples": [{"kind": x[0], "candidates": x[1], "graph_edges": x[2]} for x in sorted(nontrivial, key=str)[:: max(1, len(nontrivial) // 5)][:6]],
+        "distribution": stats, "model_impl_disagreements": len(all_diffs), "impl_monitor_failures": len(all_fails),
+        "harness_seconds": round(run_.harness_s, 1), "model_seconds": round(run_.model_s, 1),
+        "source_hash": vlib.source_hash(SRC_FILES), "gen_version": GEN_VERSION, "proof_failures": audit["failures"],
+    })
+    c.cov = cov
+    c.assumptions = ["enable_user_dict: false, no corrector, no contextual suggestions, no packs, max_homophones default",
+                     "the input is one abc segment (first byte a letter of the alphabet)",
+                     "the syllable graph, the prism's key lists and the sentence are recorded from the implementation and given to the model",
+                     "credibility + weight is compared exactly in the model (the code rounds the sum to double)"]
+
+
+def replay(c, r):
+    if "config" not in r or not r.get("inputs"):
+        print("replay: this file names a broken obligation, no concrete input:", r.get("what"))
+        return 1
+    cfg = config_from_json(r["config"])
+    run_ = Runner(c)
+    fails, diffs, crash = evaluate(run_, [cfg], {cfg["name"]: r["inputs"]})
+    want = r.get("clause")
+    hit = [f for f in fails if want is None or f[3] == want]
+    if r.get("kind") == "correspondence":
+        print("replay: correspondence ->", [(d[1], d[3], d[4][:200]) for d in diffs][:3] or "ok")
+        return 1 if diffs else 0
+    print("replay %s inputs %s -> %s" % (cfg["name"], r["inputs"], [(f[1], f[3], f[4][:200]) for f in hit][:3] or "ok"))
+    return 1 if hit or crash else 0
